@@ -4,6 +4,7 @@
 -/
 import PrologVerif.Proofs.RefineRun
 import PrologVerif.Proofs.RefineCallSim
+import PrologVerif.Proofs.RefineCtl
 namespace PrologVerif.Refine
 open PrologVerif PrologVerif.VM PrologVerif.DecompileCompile PrologVerif.Activation
   PrologVerif.RefineITree PrologVerif.RefineRobinson PrologVerif.VMScoped
@@ -91,11 +92,44 @@ theorem call_user {fl : Bool} {tmpl : Term} {max : Nat} {prog : List Term} (hpro
         simpa [List.map_map, Function.comp_def] using hs
     rw [hp, hm1]
     refine ⟨.alts rfl (Nat.pos_iff_ne_zero.1 hst.2) hshape ?_ hs', ⟨hst.1, Nat.succ_pos _⟩, Nat.le_refl _⟩
-    refine ⟨N, σ1, π, D, G', hN, hW1, hcg', hgr', hco', hq, hgD, ?_⟩
+    refine ⟨N, σ1, π, D, G', hN, hW1, hcg', hgr', hco', hq, hgD, altsRel_of_forall ?_⟩
     intro it hit
     simp only [its, List.mem_map, List.mem_filter, decide_eq_true_eq] at hit
     obtain ⟨c, ⟨hc1, hc2⟩, rfl⟩ := hit
     exact .prog (hprog c hc1) hc2
+
+/-- a call of a control construct that bootstrap.pl defines by clauses -/
+theorem call_boot {fl : Bool} {tmpl : Term} {max : Nat} {prog : List Term} (hprog : ∀ c ∈ prog, clauseS fl c = true)
+    {N : Nat} {env1 : Env} {σ1 : Subst} {π : Nat → Nat} {D : Nat → Prop} {nv : Nat}
+    (hW1 : SimW tmpl N env1 σ1 π D nv) {K' : Cont} {G' : List (Term × Nat)} (hcg' : ContGoals fl tmpl max K' G')
+    {lv : Lv} {R' : List SLD.Frame} (hgr' : GRel lv σ1 π D G' R') (hco' : CutsOK lv G')
+    {q : Term} (hq : q = img σ1 π tmpl)
+    {g : Term} (hgD : InD D g) (hshape : Shape g)
+    (hu : userPred (functorName g) (argList g).length = false)
+    {its : List (Term × Option SLD.Alt)}
+    (hboot : ∃ pr, lookupProc bootState (functorName g) (argList g).length = some pr ∧
+      pr.clauses = its.map (fun it => clauseOf it.1))
+    {m : MS} (hN : N ≤ m.user.nextVar) (hst : StOK prog m) {p : Pr} {m1 : MS}
+    (harr1 : ∀ pr, lookupProc m.user (functorName g) (argList g).length = some pr →
+      clausesCall pr.clauses (argList g) K' env1 m = (p, m1))
+    {n d : Nat} {r : SLD.Res} (hrel : AltsRel fl σ1 π D nv d g its)
+    (hs : SLD.solveAlts false (progS prog) n d nv (its.filterMap (·.2)) R' q
+      (max - m.user.answers.length) = some r) :
+    PSpec fl tmpl max prog lv d p m1 m.user.answers r ∧ StOK prog m1 ∧ m.user.nextVar ≤ m1.user.nextVar := by
+  obtain ⟨pr, hpr, hcl⟩ := hboot
+  have hl : lookupProc m.user (functorName g) (argList g).length = some pr := by
+    rw [lookupProc_stOK hst, lookup_other prog hprog _ _ hu, hpr]
+  have harr := harr1 pr hl
+  have hp : p = ({ id := m.user.nextId, delayed := its.map (fun it => Thunk.clause (clauseOf it.1) (argList g) K' env1 m.user.nextId) } : Pr) := by
+    have : p = (clausesCall pr.clauses (argList g) K' env1 m).1 := by rw [harr]
+    rw [this]
+    simp [clausesCall, freshId, hcl, List.map_map, Function.comp_def]
+  have hm1 : m1 = { m with user := { m.user with nextId := m.user.nextId + 1 } } := by
+    have : m1 = (clausesCall pr.clauses (argList g) K' env1 m).2 := by rw [harr]
+    rw [this]; rfl
+  rw [hp, hm1]
+  exact ⟨.alts rfl (Nat.pos_iff_ne_zero.1 hst.2) hshape ⟨N, σ1, π, D, G', hN, hW1, hcg', hgr', hco', hq, hgD, hrel⟩ hs,
+    ⟨hst.1, Nat.succ_pos _⟩, Nat.le_refl _⟩
 
 /-- the clause `call/1` compiles for the instantiated goal `g'` against the reference's frames for
     `call(g')`: the variables of `g'` become relevant variables -/
@@ -233,9 +267,55 @@ theorem cont_run {fl : Bool} (tmpl : Term) (max : Nat) (prog : List Term) (hprog
       -- no fuel for the builtin dispatch
       simp [builtin] at harr
     | succ f' =>
-    rcases stepGoal_cases hhg with hhg | ⟨hfl, x, hx⟩
+    rcases stepGoal_cases hhg with hhg | ⟨hfl, hctl⟩
     rotate_left
-    · -- call/1
+    · cases hctl with
+      | ite c t e hx =>
+        -- if-then-else: the three clauses of `;`/2
+        subst hx
+        subst hfl
+        simp only [functorName, argList, Args.toList] at harr
+        rw [builtin_semi] at harr
+        have hig : img σ1 π (.app ";" (.cons (.app "->" (.cons c (.cons t .nil))) (.cons e .nil))) =
+            .app ";" (.cons (.app "->" (.cons (img σ1 π c) (.cons (img σ1 π t) .nil))) (.cons (img σ1 π e) .nil)) := rfl
+        rw [hig, solve_ite] at hs
+        let θ0 : Subst := fun x => if x = 0 then img σ1 π c else if x = 1 then img σ1 π t else img σ1 π e
+        refine call_boot (its := [(ite1, some (.frames [.goal (SLD.call1 (img σ1 π c)) d, .goal (.atom "!") d,
+              .goal (SLD.call1 (img σ1 π t)) l])),
+            (ite2, some (.frames [.goal (SLD.call1 (img σ1 π e)) l])), (disj3, none)])
+          hprog hW1 hcg' hgr1 hco' hq1 hgD (Or.inr ⟨_, _, rfl, by simp [Args.length]⟩) userPred_semi
+          (by obtain ⟨p0, h1, h2⟩ := boot_semi; exact ⟨p0, h1, by simpa using h2⟩) hN hst ?_ ?_ hs
+        · intro pr hpr
+          simp only [functorName, argList, Args.toList] at hpr
+          rw [hpr] at harr
+          simpa [functorName, argList, Args.toList] using harr
+        · refine .cons ?_ (.vcut ?_ rfl)
+          · refine altRel_match (θ0 := θ0) hW1 hgD clauseC_ite1 rfl (by rw [hig]; rfl) bv_ite1 ?_
+            exact .cons ⟨d, rfl, fun _ => rfl⟩ (.cons ⟨d, rfl, fun _ => rfl⟩ (.cons ⟨l, rfl, fun h => by cases h⟩ .nil))
+          · refine altRel_match (θ0 := θ0) hW1 hgD clauseC_ite2 rfl (by rw [hig]; rfl) bv_ite2 ?_
+            exact .cons ⟨d, rfl, fun _ => rfl⟩ (.cons ⟨l, rfl, fun h => by cases h⟩ .nil)
+      | ifthen c t hx =>
+        subst hx
+        subst hfl
+        simp only [functorName, argList, Args.toList] at harr
+        rw [builtin_arrow] at harr
+        have hig : img σ1 π (.app "->" (.cons c (.cons t .nil))) =
+            .app "->" (.cons (img σ1 π c) (.cons (img σ1 π t) .nil)) := rfl
+        rw [hig, solve_ifthen] at hs
+        let θ0 : Subst := fun x => if x = 0 then img σ1 π c else img σ1 π t
+        refine call_boot (its := [(ifthen1, some (.frames [.goal (SLD.call1 (img σ1 π c)) d, .goal (.atom "!") d,
+              .goal (SLD.call1 (img σ1 π t)) l]))])
+          hprog hW1 hcg' hgr1 hco' hq1 hgD (Or.inr ⟨_, _, rfl, by simp [Args.length]⟩) userPred_arrow
+          (by obtain ⟨p0, h1, h2⟩ := boot_arrow; exact ⟨p0, h1, by simpa using h2⟩) hN hst ?_ ?_ hs
+        · intro pr hpr
+          simp only [functorName, argList, Args.toList] at hpr
+          rw [hpr] at harr
+          simpa [functorName, argList, Args.toList] using harr
+        · refine .cons ?_ .nil
+          refine altRel_match (θ0 := θ0) hW1 hgD clauseC_ifthen1 rfl (by rw [hig]; rfl) bv_ifthen1 ?_
+          exact .cons ⟨d, rfl, fun _ => rfl⟩ (.cons ⟨d, rfl, fun _ => rfl⟩ (.cons ⟨l, rfl, fun h => by cases h⟩ .nil))
+      | call x hx =>
+      -- call/1
       subst hx
       have hxD : InD D x := fun v hv => hgD v (by simp [Term.hasVar, Args.hasVar, hv])
       have hok : callOK fl env1 x := by
@@ -297,12 +377,8 @@ theorem cont_run {fl : Bool} (tmpl : Term) (max : Nat) (prog : List Term) (hprog
           hgr1.step_id (fun v hv' => Or.inl hv') (fun _ _ => rfl)
         refine ⟨.alts (its := [(qClause g', some (.frames (SLD.bodyFrames false (g'.rename π) d)))])
           (g := qHead g') rfl (Nat.pos_iff_ne_zero.1 hst.2) (qHead_shape g')
-          ⟨N, σ1, π, _, G', hN, hW2, hcg', hgr2, hco', hq1, hgD2, ?_⟩
+          ⟨N, σ1, π, _, G', hN, hW2, hcg', hgr2, hco', hq1, hgD2, .cons hitem .nil⟩
           (by simpa [SLD.bodyFrames] using hs), ⟨hst.1, Nat.succ_pos _⟩, Nat.le_refl _⟩
-        intro it hit
-        simp only [List.mem_singleton] at hit
-        subst hit
-        exact hitem
     have hshape := shape_of_hornGoal hhg
     rcases hornGoal_shape hhg with ⟨fn, rfl, hfn⟩ | ⟨a, b, rfl⟩ | ⟨fn, as, rfl, hu, _⟩
     · -- an atom: `true` or a user predicate
